@@ -1,7 +1,9 @@
 """C09 - multiply, divide, saturating, packed-SIMD, bit-field instructions are bit-exact."""
 import random
 
+from .. import campaign as C
 from .. import families as F
+from ..tlc import MachineryError
 from ..words import K32, limbs
 
 
@@ -10,10 +12,18 @@ def run(ctx):
     n = 8000 if ctx.quick else 200000
     cfgs = [('v5', dict(arch_version=5)), ('v6', dict(arch_version=6)), ('v7', dict(arch_version=7)),
             ('v7r', dict(arch_version=7, is_armv7r_profile=True))]
-    F.run_family(ctx, 'media', n, {'lanes': True}, F.exact_filter, configs=cfgs)
+    items = F.boundary_items(random.Random(ctx.seed), ctx.quick)
+    grid = C.parallel(F.grid_task, [dict(name='grid-%d' % i, seed=ctx.seed + i, cfg=dict(arch_version=7), items=items[i::16])
+                                    for i in range(16)])
+    res = F.run_family(ctx, 'media', n, {'lanes': True}, F.exact_filter, configs=cfgs, extra_groups=grid)
+    ctx.extra['boundary_grid_events'] = len(items)
+    notexact = sorted({g.meta[e['id']]['gen'] for g, e, v in res if g.name.startswith('grid-') and not v['path'].startswith('exact:')})
+    if notexact:
+        raise MachineryError('boundary-grid words not judged exactly (generator encodes them wrongly?): %s' % notexact)
     ctx.extra['rule'] = ('random words of MUL/MLA/MLS, long/halfword/dual/most-significant-word multiplies, SDIV/UDIV, QADD.., '
                          'SSAT/USAT(16), the 36 parallel add/sub forms, SEL, USAD8/USADA8, SXT*/UXT*(+A), BFC/BFI/SBFX/UBFX, PKH, '
-                         'REV*/RBIT/CLZ in ARM, 16- and 32-bit Thumb encodings; operands biased to lane boundaries '
+                         'REV*/RBIT/CLZ in ARM, 16- and 32-bit Thumb encodings; a directed grid of every boundary lane pair at every lane '
+                         'placement for the 36 parallel forms, boundary operand pairs for QADD../multiplies, saturation bounds +-1; operands biased to lane boundaries '
                          '(0x7F/0x80/0xFF, 0x7FFF/0x8000), 0, 0x80000000, 0xFFFFFFFF and random; prior Q/GE random; the '
                          'arithmetic is the TLC-checked limb library (MC_W32 links it to the reference)')
 
